@@ -145,7 +145,7 @@ Admits(doc) ==
     /\ doc.fmt \in Formats /\ doc.cls \in Readers /\ RootFor(doc.cls, doc.root)
     /\ doc.hl \in BOOLEAN /\ doc.noise \in BOOLEAN
     /\ Len(doc.dirs) >= 1 /\ (doc.hl => Len(doc.dirs) = 1)
-    /\ doc.hl => (doc.noise \/ doc.dirs[1].total >= 0 \/ doc.dirs[1].ents # <<>>)      \* some content
+    /\ doc.hl => (doc.dirs[1].total >= 0 \/ doc.dirs[1].ents # <<>>)                   \* some content
     /\ \A i, j \in DOMAIN doc.dirs : doc.dirs[i].name = doc.dirs[j].name => i = j
     /\ \A i \in DOMAIN doc.dirs : /\ AdmitsDir(doc.dirs[i], doc.hl)
                                   /\ \A j \in DOMAIN doc.dirs[i].ents : AdmitsEntry(doc.dirs[i].ents[j], doc.fmt)
@@ -322,7 +322,7 @@ Next == ReadHeader \/ ReadTotal \/ ReadEntry \/ SkipLine \/ Finish
 -----------------------------------------------------------------------------
 (* The listings TLC enumerates (tiny alphabets; the driver renames letters, *)
 (* draws numbers, dates, owners, permission strings and spacings)           *)
-T(a)          == <<a>>
+
 DateT  == <<"J", "u", "l", " ", " ", "6", " ", "2", "3", ":", "3", "2">>
 DateT2 == <<"J", "u", "l", " ", "1", "6", " ", "0", "3", ":", "0", "5">>
 DateY  == <<"S", "e", "p", " ", "1", "6", " ", " ", "2", "0", "1", "5">>
@@ -417,7 +417,15 @@ Raw(n) == CASE Fam = "entry" -> EntryDocs(N)
          [] Fam = "pair" -> PairDocs(N)
          [] Fam \in {"dirs", "dirsz"} -> DirsDocs(N)
          [] Fam = "root" -> RootDocs(N)
-Inputs(n) == {x \in Raw(n) : Admits(x) /\ Classes(x) \subseteq Admit}
+(* the raw families contain sequences with a repeated directory / entry name and symlinks named with an arrow;  *)
+(* everything else about Admits is checked as the invariant Admitted on what is enumerated                      *)
+DistinctNames(x) ==
+    /\ \A i \in DOMAIN x.dirs : \A j \in DOMAIN x.dirs[i].ents :
+            x.dirs[i].ents[j].t = "l" => ~Contains(x.dirs[i].ents[j].name, Arrow)
+    /\ \A i, j \in DOMAIN x.dirs : x.dirs[i].name = x.dirs[j].name => i = j
+    /\ \A i \in DOMAIN x.dirs : \A j, k \in DOMAIN x.dirs[i].ents : x.dirs[i].ents[j].name = x.dirs[i].ents[k].name => j = k
+    /\ x.hl => (x.dirs[1].total >= 0 \/ x.dirs[1].ents # <<>>)
+Inputs(n) == {x \in Raw(n) : DistinctNames(x) /\ (Admit = AllClasses \/ Classes(x) \subseteq Admit)}
 
 Init ==
     /\ inp \in Inputs(N)
@@ -427,7 +435,7 @@ Spec == Init /\ [][Next]_vars
 
 -----------------------------------------------------------------------------
 (* What TLC checks on every enumerated listing                              *)
-Admitted == Admits(inp)
+Admitted == pos = 0 => Admits(inp)            \* the enumeration stays inside what the formats admit (inp never changes)
 
 (* mechanism |= reference *)
 Meets(m) ==
